@@ -67,7 +67,7 @@ func (w *World) VerifyFunc(fn *ssa.Function, mode *Mode, prop string) (x *X, err
 	B := x.B
 	st := &State{heap: map[string]*Term{}, cells: map[int]Value{}, pgen: map[string]int{}}
 	ct := w.ContractFor(fn)
-	if ct != nil && ct.NoWrap {
+	if ct != nil && ct.NoWrap && (len(ct.NoWrapProps) == 0 || prop == "" || contains(ct.NoWrapProps, prop)) {
 		x.noWrap = true
 	}
 	nullable := map[string]bool{}
@@ -469,6 +469,9 @@ func (x *X) discharge(timeout time.Duration, workers int) []*OblResult {
 	var again []int
 	for _, i := range jobs {
 		r := results[i]
+		if x.noRetry[baseName(r.Obl.Name)] {
+			continue // an open known finding: expected to fail, no second chance needed
+		}
 		if r.Obl.Kind != "vacuity" && (r.Status == "unknown" || (r.Status == "failed" && strings.HasPrefix(r.Raw, "model of the quantifier-free relaxation"))) {
 			again = append(again, i)
 		}
